@@ -459,14 +459,26 @@ class PVLEncoder(object):
         """Returns true if *s* must be quoted according to this
         encoder's grammar, false otherwise.
         """
-        if any(c in self.grammar.whitespace for c in s):
+        if len(s) == 0 or any(c in self.grammar.whitespace for c in s):
             return True
 
-        if s in self.grammar.reserved_keywords:
+        if self.is_keyword(s):
             return True
 
         tok = Token(s, grammar=self.grammar, decoder=self.decoder)
         return not tok.is_unquoted_string()
+
+    def is_keyword(self, s: str) -> bool:
+        """Returns true if *s* would be read back as one of the grammar's
+        keywords (which are compared case-insensitively), false otherwise.
+        """
+        keywords = set(self.grammar.reserved_keywords)
+        keywords |= {
+            self.grammar.none_keyword,
+            self.grammar.true_keyword,
+            self.grammar.false_keyword,
+        }
+        return s.casefold() in (k.casefold() for k in keywords)
 
     def encode_string(self, value) -> str:
         """Returns a ``str`` formatted as a PVL String based
@@ -751,12 +763,22 @@ class ODLEncoder(PVLEncoder):
         """Extends parent function by appropriately quoting Symbol
         Strings.
         """
-        if self.decoder.is_identifier(value):
+        if self.is_bare_identifier(value):
             return value
         elif self.is_symbol(value):
             return "'" + value + "'"
         else:
             return super().encode_string(value)
+
+    def is_bare_identifier(self, value) -> bool:
+        """Returns true if *value* is an ODL Identifier that will be read
+        back as the same string when written without quotes, which excludes
+        the grammar's keywords and text that decodes as a number.
+        """
+        if not self.decoder.is_identifier(value) or self.is_keyword(value):
+            return False
+        tok = Token(value, grammar=self.grammar, decoder=self.decoder)
+        return not tok.is_numeric()
 
     def encode_time(self, value: datetime.time) -> str:
         """Extends parent function since ODL allows a time zone offset
@@ -1073,7 +1095,7 @@ class PDSLabelEncoder(ODLEncoder):
         which typically means that they are double-quoted and not
         single-quoted.
         """
-        if self.decoder.is_identifier(value):
+        if self.is_bare_identifier(value):
             return value
         elif self.is_symbol(value) and self.symbol_single_quote:
             return "'" + value + "'"
